@@ -321,6 +321,14 @@ class Fn(object):
                 return self.block(rest, final)
             if isinstance(s.value, ast.Call) and ast.unparse(s.value.func).startswith('self._logger.'):
                 return self.block(rest, final)
+            call = s.value
+            if (isinstance(call, ast.Call) and isinstance(call.func, ast.Attribute) and call.func.attr in ('extend', 'append')
+                    and isinstance(call.func.value, ast.Name) and len(call.args) == 1 and not call.keywords):
+                # lst.extend(xs) / lst.append(x) are  lst += xs / lst += [x]
+                arg = call.args[0] if call.func.attr == 'extend' else ast.List(elts=[call.args[0]], ctx=ast.Load())
+                aug = ast.AugAssign(target=ast.Name(id=call.func.value.id, ctx=ast.Store()), op=ast.Add(), value=arg)
+                ast.copy_location(aug, s)
+                return self.block([aug] + rest, final)
             fail(s, 'expression statement')
         if isinstance(s, ast.ImportFrom):
             return self.block(rest, final)
@@ -529,10 +537,10 @@ def generate(outdir):
             try:
                 text += translate(spec)
             except Unsupported as e:
-                errors.append('translate:%s: %s' % (spec['name'], e))
+                errors.append('translate:%s:%s: %s' % (fname, spec['name'], e))
                 ok = False
             except (OSError, SyntaxError) as e:
-                errors.append('translate:%s: %s: %s' % (spec['name'], type(e).__name__, e))
+                errors.append('translate:%s:%s: %s: %s' % (fname, spec['name'], type(e).__name__, e))
                 ok = False
         path = os.path.join(outdir, fname)
         if not ok:
